@@ -26,7 +26,8 @@ PROPS["C16"] = {
                   "no proof is claimed beyond the bound.",
     "level_note": "Trusted: the reference tokeniser (lib/reflex.go, ~100 lines written from the README token description), strconv for "
                   "number classification. Only spaces are varied as separators."
-                  " Later widening: tab, line end and the byte 0xff are in the exhaustive alphabet; the reference tokeniser treats space, tab and line end as blanks, folds case without touching bytes that are not UTF-8, and abstains on other Unicode blanks.",
+                  " Later widening: tab, line end and the byte 0xff are in the exhaustive alphabet; the reference tokeniser treats space, tab and line end as blanks, folds case without touching bytes that are not UTF-8, and abstains on other Unicode blanks."
+                  " Round 5: form feed joins the exhaustive alphabet (a blank the documentation does not mention: the reference abstains, the token-truth invariants still apply); the source span of a word is computed letter by letter (case folding may change the byte length of a letter); the native fuzz leg no longer filters its inputs.",
     "rule": "leg Exhaustive: every string of length 1..L over the 25-symbol token alphabet "
             "{a 1 . space ' \" ` = ! < > ^ ~ & | ( ) [ ] , ; + - * /} (L=4 quick, L=5 thorough), each emitted exactly once; "
             "leg Spacing: rapid-generated token sequences (<=8 tokens: keywords in mixed case, names, numbers, floats, "
@@ -149,7 +150,8 @@ PROPS["C05"] = {
                   "inside other definitions (chains), ORDER BY and GROUP BY.",
     "level_note": "Trusted: reference evaluator and RefSelect (lib/refselect.go). A bare name as a whole select field or whole WHERE is not "
                   "generated (not a use the property lists); duplicate alias names are not generated. ORDER BY ties are compared as multisets."
-                  " Later widening: a field that is only a name (n as m) and repeated names (a later field reusing an earlier name of the same type) ARE generated now; names that need back quotes (blank, dash, capitals); aggregate fields built on the names of earlier aggregate or group fields. Leg TestC05NameKeyCollide draws names and keys from fragments with '-', ':' and digits; leg TestC05DynamicCache runs templates over JSON members in runs of one kind and only compares cache on against cache off within one mode (the reference has no semantics for JSON).",
+                  " Later widening: a field that is only a name (n as m) and repeated names (a later field reusing an earlier name of the same type) ARE generated now; names that need back quotes (blank, dash, capitals); aggregate fields built on the names of earlier aggregate or group fields. Leg TestC05NameKeyCollide draws names and keys from fragments with '-', ':' and digits; leg TestC05DynamicCache runs templates over JSON members in runs of one kind and only compares cache on against cache off within one mode (the reference has no semantics for JSON)."
+                  " Round 5: chains of fields that are only names (n as z1, z1 as z2, ..), each inserted at a random place of the select list, in front of or behind the field it names.",
     "rule": "rapid: store kind x size x batch size x 1-4 select fields (typed expressions, 75% named) x WHERE depth 0-3 with 35% alias bias; "
             "one in four statements is an aggregate grouped by named fields; one in three has ORDER BY. "
             "Non-trivial = a name is used in WHERE and, in key order, a pair the filter rejects precedes a pair it accepts "
@@ -202,7 +204,8 @@ PROPS["C04"] = {
                   "both are compared with the reference evaluator, and the full query through BuildPlan must return the reference rows.",
     "level_note": "Trusted: reference evaluator (third leg only; the first two legs compare the engine's own evaluator before/after rewriting). "
                   "Floats are exactly representable (k/4) and small so equality is exact; literal zero divisors are refused statically and skipped."
-                  " Later widening: floats that are not exactly representable (0.1, 0.2) and constant conversion calls (float(3), float('2'), int('7')) among the leaves. Pairs on which the reference reports a magnitude error (the original only evaluates by wrapping around int64) are skipped and counted.",
+                  " Later widening: floats that are not exactly representable (0.1, 0.2) and constant conversion calls (float(3), float('2'), int('7')) among the leaves. Pairs on which the reference reports a magnitude error (the original only evaluates by wrapping around int64) are skipped and counted."
+                  " Round 5: leg TestC04AggrFields - a constant Boolean combined (& | and or, either side, bare or inside str()) with an operand that holds an aggregate function, also under !: the statement must return the same rows as the same statement with the constant written as a predicate of the pair that cannot be folded (strlen(key) >= 0 / < 0), i.e. the statement without the rewrite.",
     "rule": "enumerated expressions placed as select field or inside a WHERE comparison (each emitted once) + rapid typed trees depth 1-4. "
             "Non-trivial = the rewrite changed the rendered expression (String() differs) and the original evaluates on at least one pair; "
             "distinct = distinct statements.",
@@ -210,6 +213,7 @@ PROPS["C04"] = {
     "legs": [
         {"test": "TestC04Arith", "kind": "enum", "quick": {"shards": 4}, "thorough": {"shards": 16}},
         {"test": "TestC04Bool", "kind": "enum", "quick": {"shards": 2}, "thorough": {"shards": 4}},
+        {"test": "TestC04AggrFields", "kind": "enum", "quick": {"shards": 1}, "thorough": {"shards": 1}},
         {"test": "TestC04Sampled", "kind": "rapid", "quick": {"checks": 8000, "shards": 2}, "thorough": {"checks": 300000, "shards": 12}},
     ],
     "min_nontrivial": {"quick": 5000, "thorough": 50000},
@@ -229,7 +233,8 @@ PROPS["C15"] = {
                   "generated SELECTs with named fields (names print as `name` and are re-parsed under the same select list).",
     "level_note": "Trusted: the documented precedence table as encoded in lib/render.go (DocPrec) and the s-expression walkers. Literals are free of "
                   "quote characters (the language has no escape syntax). Only pre-optimisation trees are round-tripped."
-                  " Later widening: names that need back quotes in generated statements; leg TestC15Names: back-quoted names that are not select fields (capitals, blanks, operator characters, keywords, numbers) as arguments, list items and operands - the printed filter must parse to the same tree and select the same rows.",
+                  " Later widening: names that need back quotes in generated statements; leg TestC15Names: back-quoted names that are not select fields (capitals, blanks, operator characters, keywords, numbers) as arguments, list items and operands - the printed filter must parse to the same tree and select the same rows."
+                  " Round 5: TestC15Names also enumerates every back-quoted name of up to 2 (thorough: 3) characters over 25 characters that matter to the lexer (comma, semicolon, brackets, quotes, operators, blank, tab).",
     "rule": "enumerated operator sequences (each emitted once; typeable ones are cases) + rapid trees depth 1-5 x 4 parenthesis styles x random case, "
             "as WHERE or as select field. Non-trivial = the expression has at least two binary operators (precedence or associativity is exercised); "
             "distinct = distinct query texts.",
@@ -239,7 +244,7 @@ PROPS["C15"] = {
         {"test": "TestC15Sequences", "kind": "enum", "quick": {"shards": 2}, "thorough": {"shards": 16}},
         {"test": "TestC15Trees", "kind": "rapid", "quick": {"checks": 15000, "shards": 4}, "thorough": {"checks": 400000, "shards": 12}},
         {"test": "TestC15Statements", "kind": "rapid", "quick": {"checks": 8000, "shards": 2}, "thorough": {"checks": 150000, "shards": 8}},
-        {"test": "TestC15Names", "kind": "enum", "quick": {"shards": 1}, "thorough": {"shards": 1}},
+        {"test": "TestC15Names", "kind": "enum", "quick": {"shards": 1}, "thorough": {"shards": 4}},
     ],
     "min_nontrivial": {"quick": 5000, "thorough": 50000},
 }
@@ -261,7 +266,8 @@ PROPS["C06"] = {
                   "is a violation.",
     "level_note": "The poll cap (4*pairs + len(query) + 64 polls) is deterministic, no wall clock is used as a correctness signal. "
                   "Native fuzzing cannot be pinned to a seed; its saved failing input is the reproducible unit. Cache-off exponential alias fan-out is not explored."
-                  " Later widening: every query text also goes through BuildExecutor; quantile percents outside [0, 1] written as constant expressions; leg TestC06Chains plans and runs chains of up to 40 named fields that each use the previous name twice (also as parameter of quantile / group_concat) under a 20 s deadline per statement - the one place where wall-clock time decides, four orders of magnitude above the linear cost.",
+                  " Later widening: every query text also goes through BuildExecutor; quantile percents outside [0, 1] written as constant expressions; leg TestC06Chains plans and runs chains of up to 40 named fields that each use the previous name twice (also as parameter of quantile / group_concat) under a 20 s deadline per statement - the one place where wall-clock time decides, four orders of magnitude above the linear cost."
+                  " Round 5: leg TestC06NameGraph - select lists over a pool of three names in which fields name themselves, each other and repeat names (the first definition counts), the names also used in WHERE / ORDER BY / GROUP BY: a definition cycle that slips through the check overflows the stack.",
     "rule": "rapid legs Grammar/Corrupt + deterministic legs Long/Seeds (+ native fuzz executions in the thorough tier, counted as evaluations only). "
             "Non-trivial = the statement reached execution (plan built and at least one storage read) or it was rejected with a positional error; "
             "distinct = distinct (query text, store size).",
@@ -272,6 +278,7 @@ PROPS["C06"] = {
         {"test": "TestC06Dynamic", "kind": "enum", "quick": {"shards": 4}, "thorough": {"shards": 8}},
         {"test": "TestC06Chains", "kind": "enum", "quick": {"shards": 1}, "thorough": {"shards": 1}},
         {"test": "TestC06Grammar", "kind": "rapid", "quick": {"checks": 10000, "shards": 4, "shrink": "15s"}, "thorough": {"checks": 150000, "shards": 8}},
+        {"test": "TestC06NameGraph", "kind": "rapid", "quick": {"checks": 6000, "shards": 2, "shrink": "15s"}, "thorough": {"checks": 100000, "shards": 4}},
         {"test": "TestC06Corrupt", "kind": "rapid", "quick": {"checks": 15000, "shards": 4, "shrink": "15s"}, "thorough": {"checks": 300000, "shards": 8}},
         {"test": "FuzzC06", "kind": "fuzz", "thorough": {"fuzztime": 600}},
     ],
@@ -295,7 +302,8 @@ PROPS["C14"] = {
     "level_note": "Operand-type error = message contains one of: wrong type, not boolean, not string, not number, parameter type, not list/List/JSON, "
                   "require number/string type, Cannot find function, arguments but got. JSON field access is excluded from the acceptance leg as the "
                   "property says. The acceptance leg only asserts acceptance for the sub-language of DESIGN.md §2.2."
-                  " Later widening: leg TestC14Matrix runs every operator over every pair of operand forms of every static type (15 forms, as select field, as WHERE and as a field beside count(1) .. group by key): whatever the verdict, it must come at plan build - rejected with zero storage calls, or accepted and never failing with an operand-type error; raw-text forms for shapes the AST cannot express (faults in a second subscript, key in a put key, aggregates in aggregate arguments / GROUP BY / WHERE) and for shapes that must be accepted (Boolean literals under and/or, ! under comparisons, a Boolean name as the whole WHERE); half of the mutant hosts use the wider language (JSON cascades).",
+                  " Later widening: leg TestC14Matrix runs every operator over every pair of operand forms of every static type (15 forms, as select field, as WHERE and as a field beside count(1) .. group by key): whatever the verdict, it must come at plan build - rejected with zero storage calls, or accepted and never failing with an operand-type error; raw-text forms for shapes the AST cannot express (faults in a second subscript, key in a put key, aggregates in aggregate arguments / GROUP BY / WHERE) and for shapes that must be accepted (Boolean literals under and/or, ! under comparisons, a Boolean name as the whole WHERE); half of the mutant hosts use the wider language (JSON cascades)."
+                  " Round 5: a JSON-typed operand form (json('{..}')) joins the matrix (16 forms).",
     "rule": "deterministic fault x position grid (each cell once) + rapid mutants + rapid well-typed statements. Non-trivial = a mutant whose fault is "
             "not at the root of WHERE / a select field / a PUT or REMOVE operand, a grid cell, or a well-typed statement with at least two operators; "
             "distinct = distinct statements.",
@@ -321,7 +329,8 @@ PROPS["C17"] = {
                   "puts query[Pos] exactly above the caret (end of the trimmed text for -1, first non-blank for offsets inside leading blanks), and the "
                   "message line is indented by the padding.",
     "level_note": "Single-line queries only (the window logic is line oriented); crashes while rendering are C06's subject and are also reported here as violations of the render leg."
-                  " The reference tokeniser abstains on Unicode blanks other than space, tab and line end (the engine's own token starts are accepted there).",
+                  " The reference tokeniser abstains on Unicode blanks other than space, tab and line end (the engine's own token starts are accepted there)."
+                  " Round 5: blanks the documentation does not mention (form feed, vertical tab, NBSP, U+3000) in front of tokens, for one statement in four behind every space; where the reference abstains, no token start may lie ON a blank.",
     "rule": "rapid legs Corrupt / RunTime / Typed (+ native fuzz executions in the thorough tier). Non-trivial = a positional error with Pos >= 0 in a "
             "query longer than 70 bytes or with leading blanks; distinct = distinct (query, padding mode).",
     "assumptions": ["Go toolchain and pgregory.net/rapid v1.3.0 are trusted", "token starts are taken from the engine lexer (validated by C16) and from the reference tokeniser"],
@@ -393,7 +402,8 @@ PROPS["C09"] = {
     "level_note": "Group columns are compared by content with the engine's textual rendering of an integer accepted as the integer; json_arrayagg is compared "
                   "structurally. Mixed int/float aggregate arguments, float group values and non-UTF-8 text under json_arrayagg are outside the domain. "
                   "Every non-aggregate select field is one of the GROUP BY expressions."
-                  " Later widening: the reference reads numeric text and defines sum/avg/min/max of groups that mix integers and floats (min/max: by value, either kind accepted); float-valued and Boolean group columns; Boolean aggregate fields with a constant side; group values and scalar calls around aggregates (strlen(key) + count(1), str(count(1))); leg TestC09DynamicGroups groups by a JSON member that is a number, a text, a Boolean or null and compares group membership with equality of (kind, value).",
+                  " Later widening: the reference reads numeric text and defines sum/avg/min/max of groups that mix integers and floats (min/max: by value, either kind accepted); float-valued and Boolean group columns; Boolean aggregate fields with a constant side; group values and scalar calls around aggregates (strlen(key) + count(1), str(count(1))); leg TestC09DynamicGroups groups by a JSON member that is a number, a text, a Boolean or null and compares group membership with equality of (kind, value)."
+                  " Round 5: the Boolean aggregate field may sit under a !.",
     "rule": "rapid legs TestC09 (general) and TestC09Collide. Non-trivial = at least 2 groups and (a group with at least 2 pairs, or two distinct group "
             "tuples with equal concatenation); distinct = distinct (query, store, batch size).",
     "assumptions": COMMON_ASSUMPTIONS,
@@ -422,7 +432,8 @@ PROPS["C10"] = {
                   "pairs so that one chunk holds rows with different arguments.",
     "level_note": "Trusted: lib/refeval.go re-implementations. substr follows the README wording [start, end) with 0 <= start <= end. int()/float() of "
                   "non-numeric text, float-to-text rendering, overflow, out-of-range [n], missing JSON members and case mapping of non-ASCII text are outside the domain."
-                  " Later widening: integers up to the int64 limits; every text argument also as value + '' and split(value, '|')[0] (another internal representation); text lists whose elements read as numbers stay text lists (the reference is type-based).",
+                  " Later widening: integers up to the int64 limits; every text argument also as value + '' and split(value, '|')[0] (another internal representation); text lists whose elements read as numbers stay text lists (the reference is type-based)."
+                  " Round 5: every evaluable case is also run among neighbouring pairs (variations of the pair on which the reference defines the expression too) in one chunk of batch iteration, once written out and once with key and value reached through the names of other select fields: the value shown for a pair must not depend on its neighbours.",
     "rule": "enumerated (function, argument tuple, form) cases (each once) + rapid samples. Non-trivial = the case is inside the documented domain "
             "(the reference defines a value or a documented refusal); distinct = distinct (statement, pair).",
     "assumptions": COMMON_ASSUMPTIONS,
@@ -469,7 +480,8 @@ PROPS["C12"] = {
                   "expressions may mention `key` too) demands that `put p1, .., pn` issues exactly the writes of the n statements `put p1`; ..; `put pn` "
                   "executed in order, so no pair can depend on its neighbours. Histories as in C11.",
     "level_note": "Numbers are integers (float rendering is unspecified). Empty keys are outside the domain."
-                  " Leg TestC12FloatKeys: float-valued key expressions (the reference has no text form for floats): remove e must delete exactly the key that put (e, ..) wrote. Key expressions no longer mention the key keyword (refused by the engine since repair 56 of DESIGN 8.1; C14 asserts the refusal).",
+                  " Leg TestC12FloatKeys: float-valued key expressions (the reference has no text form for floats): remove e must delete exactly the key that put (e, ..) wrote. Key expressions no longer mention the key keyword (refused by the engine since repair 56 of DESIGN 8.1; C14 asserts the refusal)."
+                  " Round 5: one PUT in ten has the key keyword inside the key expression of one of its pairs (any position): it must be refused before any storage call (spec.md: key only generates the value); one statement in six uses a member of a constant JSON object as an operand (only text members can be written).",
     "rule": "rapid single statements + histories. Non-trivial = a duplicate key, a value that depends on key, a REMOVE of an existing key, or a failing "
             "expression after a succeeding one; distinct = distinct (statement, prior state, polls).",
     "assumptions": COMMON_ASSUMPTIONS,
@@ -519,7 +531,8 @@ PROPS["C19"] = {
     "level_note": "The harness does not own the Go scheduler: schedules are sampled. A value-level interference that needs one rare interleaving and involves no "
                   "data race can be missed. Package switches (PlanBatchSize, EnableFieldCache) are set before the goroutines start and only read afterwards. "
                   "A race failure is not shrinkable; the statement set is written as the replay."
-                  " Later widening: one statement in ten uses the short form without a select part.",
+                  " Later widening: one statement in ten uses the short form without a select part."
+                  " Round 5: aggregate statements whose quantile percent / group_concat separator is given through a chain of named constant fields (evaluated when the plan is built).",
     "rule": "rapid statement sets x GOMAXPROCS x repeats. Non-trivial = at least 2 goroutines and at least 2 of the statements are aggregate or alias "
             "statements; distinct = distinct (statement set, modes, GOMAXPROCS, store).",
     "assumptions": COMMON_ASSUMPTIONS + ["the Go race detector's happens-before analysis is trusted"],
